@@ -8,6 +8,8 @@ Proving a postcondition for this one arbitrary assignment proves it for all assi
 """
 import z3
 
+from .values import Unsupported
+
 Label = z3.IntSort()
 Key = z3.SeqSort(z3.IntSort())
 Real = z3.RealSort()
@@ -15,6 +17,7 @@ Int = z3.IntSort()
 Bool = z3.BoolSort()
 
 xval = z3.Function("xval", Label, Real)           # ghost boolean assignment
+INTP = z3.Function("intp", Real, Bool)           # "is an integer", as an abstract predicate (see Facts.intp)
 xint = z3.Function("xint", Label, Int)            # the same value as an integer (xval(i) == ToReal(xint(i)))
 bmono = z3.Function("bmono", Key, Real)            # product of xval over the key (with repetitions)
 smono = z3.Function("smono", Key, Real)            # product of zval over the key (with repetitions)
@@ -59,6 +62,7 @@ LEMMAS = {
     "L10-split": "product over a key = product over its members in S times product over its members outside S; a subsequence of a canonical key is canonical; if the assignment takes the values d.get(i,0) on the labels concerned, prod of those values is the monomial",
     "L11-enum": "a dict with exactly n items, n of whose items are pairwise distinct keys k_1..k_n, is the dict {k_1: d[k_1], .., k_n: d[k_n]} (a finite set of cardinality n that contains n distinct elements has no others)",
     "L12-count": "if every stored coefficient of d equals c then the boolean value of d is c times the number of its monomials that evaluate to 1, a natural number <= the number of terms",
+    "L13-origin": "at the all-zero boolean assignment (all spins +1) a monomial is 1 if its key is empty and 0 otherwise (spin: always 1), so the boolean value of a model there is its constant term",
     "set-facts": "memset of empty/unit/concat; members(sorted(set k)) = members(k); members(ssq k) subset members(k); |S + {i}| = |S| + [i not in S]",
     "sq-shape": "sq(k) is duplicate-free, sorted, idempotent, no longer than k, members(sq k) subset members(k), identity on length <= 1",
 }
@@ -100,6 +104,66 @@ class Facts:
     def add(self, f):
         self.facts.append(f)
 
+    # ---- integrality as an abstract predicate ------------------------------------------------------------------
+    # z3 (and cvc5) are weak on is_int / to_int once if-then-else terms, arrays or sequences occur in the same query
+    # (a goal like  is_int(a), b == -a  |-  is_int(b)  times out). Integrality is therefore the uninterpreted
+    # predicate intp(t), constrained only by facts that are true of "t is an integer":
+    #   intp(t) -> t == to_real(k_t)            (a witness, so that integrality can be *used* arithmetically)
+    #   intp(numeral) <-> the numeral is whole;  intp(to_real(i));
+    #   closure under + - * unary minus and if-then-else, instantiated on every such term that occurs as one side of
+    #   an equation between reals in the path condition (congruence then transports intp across the equation).
+    # Everything proved with these facts holds for the real predicate; what cannot be proved stays open.
+    def intp(self, e):
+        if not getattr(self, "intp_active", False):
+            self.intp_active = True
+            for c in (0, 1, -1, 2):
+                self._intp_term(z3.RealVal(c), 0)      # x == 0 or x == 1  gives intp(x) by congruence
+        return self._intp_term(e, 0)
+
+    def _intp_term(self, e, depth):
+        h = e.get_id()
+        seen = self.__dict__.setdefault("_intp_seen", {})
+        if h in seen:
+            return seen[h]
+        p = INTP(e)
+        seen[h] = p
+        if z3.is_rational_value(e) or z3.is_int_value(e):
+            self.add(p == z3.BoolVal(e.denominator_as_long() == 1 if z3.is_rational_value(e) else True))
+            return p
+        if z3.is_app(e) and e.decl().kind() == z3.Z3_OP_TO_REAL:
+            self.add(p)                    # the image of an integer term; it is its own witness
+            return p
+        self._nwit = getattr(self, "_nwit", 0) + 1
+        k = z3.Int("intwit!%d" % self._nwit)
+        self.add(z3.Implies(p, e == z3.ToReal(k)))
+        if not z3.is_app(e):
+            return p
+        kind = e.decl().kind()
+        if kind in (z3.Z3_OP_ADD, z3.Z3_OP_SUB, z3.Z3_OP_MUL, z3.Z3_OP_UMINUS) and depth < 10:
+            kids = [self._intp_term(c, depth + 1) for c in e.children()]
+            self.add(z3.Implies(z3.And(*kids), p))
+        elif kind == z3.Z3_OP_ITE and depth < 10:
+            a, b = e.arg(1), e.arg(2)
+            self.add(z3.Implies(z3.And(self._intp_term(a, depth + 1), self._intp_term(b, depth + 1)), p))
+        return p
+
+    def intp_scan(self, formulas):
+        """register the closure facts for both sides of every equation between reals in the formulas"""
+        seen = self.__dict__.setdefault("_intp_scanned", set())
+        stack = list(formulas)
+        while stack:
+            t = stack.pop()
+            h = t.get_id()
+            if h in seen or not z3.is_app(t):
+                continue
+            seen.add(h)
+            if t.decl().kind() == z3.Z3_OP_EQ and t.arg(0).sort() == Real:
+                for side in (t.arg(0), t.arg(1)):
+                    if z3.is_app(side) and side.num_args() > 0:
+                        self._intp_term(side, 0)
+            if t.sort().kind() == z3.Z3_BOOL_SORT:
+                stack.extend(t.children())
+
     def label(self, i):
         """register a label term"""
         h = i.get_id() if hasattr(i, "get_id") else hash(i)
@@ -117,6 +181,30 @@ class Facts:
         xv = val(i)
         self.add(z3.Or(xv == 0, xv == 1))
         self.add(z3.And(xv == z3.ToReal(ival(i)), ival(i) >= 0, ival(i) <= 1))
+        if g == "a" and getattr(self, "origin", False):
+            self.add(xv == 0)          # the second ghost is the origin: every boolean variable 0 (every spin +1)
+
+    def enable_origin(self):
+        """make the second ghost assignment the origin (all boolean variables 0, i.e. all spins +1): the value of a
+        model there is its constant term (boolean) / the sum of its coefficients (spin)"""
+        if getattr(self, "a_role", None) == "relabel":
+            raise Unsupported("second ghost assignment used both for relabelling and as the origin")
+        self.a_role = "origin"
+        if getattr(self, "origin", False):
+            return
+        self.origin = True
+        if "a" in self.ghosts:
+            for i in list(self._labels):
+                self.add(GHOSTS["a"][0](i) == 0)
+            for k in list(self._keys):
+                self._origin_key(k)
+        else:
+            self.enable_ghost("a")
+        self.used.add("L13-origin")
+
+    def _origin_key(self, k):
+        _, _, bmf, smf, _ = GHOSTS["a"]
+        self.add(z3.And(bmf(k) == z3.If(z3.Length(k) == 0, z3.RealVal(1), z3.RealVal(0)), smf(k) == 1))
 
     def enable_ghost(self, g):
         """activate a second ghost assignment: all facts, retroactively and from now on"""
@@ -166,6 +254,8 @@ class Facts:
         self.add(z3.Implies(n == 0, z3.And(bm == 1, sm == 1)))
         self.add(z3.Implies(n == 1, z3.And(bm == val(k0), sm == zv(k0))))
         self.add(z3.Implies(n == 2, z3.And(bm == val(k0) * val(k1), sm == zv(k0) * zv(k1))))
+        if g == "a" and getattr(self, "origin", False):
+            self._origin_key(k)
 
     def concat(self, a, b):
         k = z3.Concat(a, b)
